@@ -5,16 +5,20 @@
   concatenation, followed by `finish` (Ical17) for the last pull, or by `finishEof` (Ical20) for a trailing
   empty push and the last pull.
 
-  Since the repair of over-long lines in `_ical_pull` (a flag `skip` of the parser: "the line under way does
-  not fit the 1 KiB stash, it is passed over as a whole", set by `esccpy` giving up and cleared where the line
-  ends) the equality holds for EVERY input without backslash (`Tidy'`), over-long lines included: the reference
-  automaton keeps the unfolded line in full and drops it at its end if it has `stashSize` = 1024 bytes or more
-  (`flushA`, Ical8; `reference_skips_over_long` below), the parser has (stash, skip) = (the line, false) as
-  long as the line fits and ([], true) from then on, whatever the chunks were (`Rel`, Ical11).  The former
-  condition `LinesShort` (every logical line below 1000 RAW bytes) is gone; `Tidy` is kept as the former
-  hypothesis set and implies `Tidy'` (`chunk_independent_tidy`).  The former witness `raw_matters` (a line of
-  1204 raw bytes unfolding to 2, dropped or not depending on the cut) has become `raw_independent`; an
-  over-long line and a folded line of 1052 raw / 957 unfolded bytes have positive witnesses as well.
+  Since the stash grows with the line under way (repair of D191: `stashcpy` makes room for `six + sz + 1` bytes
+  before `esccpy` runs, which never appends more than it reads; `esccpy_fits`, Ical1) no line is passed over
+  for its length: the equality holds for EVERY input without backslash (`Tidy'`), lines of any length
+  included, and every non-empty logical line is handed to `_ical_proc` (`no_line_passed_over` below).  The
+  reference automaton keeps the unfolded line in full and hands it to `procA` at its end whatever its length
+  (`flushA`, Ical8; `reference_keeps_long_lines` below), and the parser has (stash, skip) = (the line, false)
+  always, whatever the chunks were (`Rel`, Ical11).  The flag `skip` of the parser ("the line under way is
+  passed over as a whole", cleared where the line ends) remains in code and model for allocation failure only,
+  which the model does not have: it is never set.  The former condition `LinesShort` (every logical line below
+  1000 RAW bytes) is gone; `Tidy` is kept as the former hypothesis set and implies `Tidy'`
+  (`chunk_independent_tidy`).  The former witness `raw_matters` (a line of 1204 raw bytes unfolding to 2,
+  dropped or not depending on the cut) has become `raw_independent`; a line of 1102 bytes, a SUMMARY line of
+  1508 bytes inside an event and a folded line of 1052 raw / 957 unfolded bytes have positive witnesses as
+  well: they are acted upon, however they are cut.
 
   Since the repair of the newline mark (a flag `eolp` of the parser instead of a `\001` byte behind a
   NON-EMPTY stash) an empty line whose newline ends a buffer can be continued by a fold in the next buffer
@@ -68,8 +72,8 @@ content byte (fold whitespace not counted).  `allSc φ {} bs` says `φ state res
 
 /-- FORMER conjunct of `Tidy`, no longer needed: every logical line takes fewer than 1000 RAW bytes (folds, CRs
 and NL counted).  The raw count was what mattered: a line only partly in the buffer was dropped when `bytes
-left in the buffer ≥ 1024 - stash fill`, whatever it would unfold to (finding D18d).  Now `esccpy` decides, on
-the unfolded bytes, and the line is dropped as a whole or not at all (`raw_independent`). -/
+left in the buffer ≥ 1024 - stash fill`, whatever it would unfold to (finding D18d).  Now the stash grows and no
+line is dropped for its length, raw or unfolded (`raw_independent`, `over_long_independent`). -/
 def LinesShort (bs : List Byte) : Prop := allSc (fun s _ => decide (s.raw < 1000)) {} bs = true
 
 /-- FORMER conjunct of `Tidy`, no longer needed: if the input ends in a complete non-empty line, that last
@@ -107,14 +111,14 @@ theorem tidy_good (bs : List Byte) (h : Tidy bs) : Good {} bs := h.2.2
 /-- the former hypotheses imply the present one -/
 theorem tidy_tidy' (bs : List Byte) (h : Tidy bs) : Tidy' bs := h.1
 
-/-- the reference semantics for a line that does not fit the stash (1024 unfolded bytes or more): when it turns
-out complete it is passed over - nothing is logged, no instruction, the component state stays - and for a line
-that fits nothing has changed (`procA`: `_ical_proc` and the bookkeeping around it) -/
-theorem reference_skips_over_long (A : Abs) :
-    (stashSize ≤ A.cur.length → flushA A = { A with sc := {}, cur := [] }) ∧
-    (A.cur ≠ [] → A.cur.length < stashSize → flushA A = { (procA A) with sc := {} }) ∧
-    stashSize = 1024 :=
-  ⟨flushA_of_over A, flushA_of_ne A, rfl⟩
+/-- the reference semantics knows no over-long line: a non-empty line of ANY length, when it turns out complete,
+is handed to `procA` (`_ical_proc` and the bookkeeping around it: it is logged, it moves the component state, it
+may complete an instruction); only the empty line is passed over -/
+theorem reference_keeps_long_lines (A : Abs) :
+    (A.cur ≠ [] → flushA A = { (procA A) with sc := {} }) ∧
+    (A.cur ≠ [] → (flushA A).log = A.log ++ [A.cur.takeWhile (· ≠ 0)]) ∧
+    (A.cur = [] → flushA A = { A with sc := {} }) :=
+  ⟨flushA_of_ne A, fun h => by rw [flushA_of_ne A h]; exact procA_log A, flushA_of_nil A⟩
 
 /-- what `feed` computes on an input without backslash, however it is cut -/
 theorem feed_tidy (chunks : List (List Byte)) (hne : ∀ c ∈ chunks, c ≠ []) (hbs : chunks.flatten ≠ [])
@@ -145,14 +149,13 @@ theorem chunk_independent (bs : List Byte) (chunks : List (List Byte)) (hc : chu
 
 /-- the invariant behind it: the parser state between two pushes depends on the bytes pushed so far, not on how
 they were cut.  With `A` the reference automaton after those bytes: the mark `eolp` says that the line's NL has
-been read, (`stash`, `skip`) is (the unfolded line so far, false) as long as that fits the stash and ([], true)
-from then on; component state, lines acted upon and instructions are those of `A`; the buffer is used up. -/
+been read, (`stash`, `skip`) is (the unfolded line so far, false) whatever its length; component state, lines
+acted upon and instructions are those of `A`; the buffer is used up. -/
 theorem state_independent (chunks : List (List Byte)) (hne : ∀ c ∈ chunks, c ≠ []) (hbs : chunks.flatten ≠ [])
     (ht : Tidy' chunks.flatten) :
     ∃ q, chunks.foldl feedStep (none, []) = (some q, (runA {} chunks.flatten).ins) ∧
       (q.eolp = true ↔ (runA {} chunks.flatten).sc.pend = true) ∧
-      ((runA {} chunks.flatten).cur.length < stashSize → q.skip = false ∧ q.stash = (runA {} chunks.flatten).cur) ∧
-      (stashSize ≤ (runA {} chunks.flatten).cur.length → q.skip = true ∧ q.stash = []) ∧
+      q.skip = false ∧ q.stash = (runA {} chunks.flatten).cur ∧
       q.comp = (runA {} chunks.flatten).comp ∧ q.log = (runA {} chunks.flatten).log ∧
       q.buf.drop q.bix = [] := by
   have hinv := feedFold_inv chunks (none, []) [] (Or.inl ⟨rfl, rfl⟩) hne ht
@@ -161,7 +164,7 @@ theorem state_independent (chunks : List (List Byte)) (hne : ∀ c ∈ chunks, c
   | inl h => exact absurd h.1 hbs
   | inr h =>
     obtain ⟨q, hq, hpost, hins, _⟩ := h
-    exact ⟨q, Prod.ext hq hins, hpost.rel.mark, hpost.rel.fits, hpost.rel.over, hpost.rel.comp, hpost.rel.log,
+    exact ⟨q, Prod.ext hq hins, hpost.rel.mark, hpost.rel.skip, hpost.rel.stash, hpost.rel.comp, hpost.rel.log,
       hpost.done⟩
 
 /-- the former statement (hypotheses `Tidy`: also no NUL, every logical line below 1000 raw bytes) -/
@@ -185,10 +188,9 @@ line early (`empty_push_in_the_middle_matters`). -/
 theorem feed_leading_empty (chunks : List (List Byte)) : feed ([] :: chunks) = feed chunks := rfl
 
 /-- the input ends in a complete line that completes an event: `END:VEVENT` / `END:VTODO` with its newline,
-in a calendar whose `END:VCALENDAR` has not come (and the line fits the stash, as any such line does unless a
-NUL and a kilobyte of other bytes follow the keyword) -/
+in a calendar whose `END:VCALENDAR` has not come -/
 def EndsInEvent (bs : List Byte) : Prop :=
-  (runA {} bs).sc.pend = true ∧ (runA {} bs).cur ≠ [] ∧ (runA {} bs).cur.length < stashSize ∧
+  (runA {} bs).sc.pend = true ∧ (runA {} bs).cur ≠ [] ∧
     (procLine (runA {} bs).comp (runA {} bs).cur).2 = .ve
 
 instance (bs : List Byte) : Decidable (EndsInEvent bs) := by
@@ -281,41 +283,6 @@ theorem chunk_independent_eof_lead (bs : List Byte) (chunks : List (List Byte)) 
   | succ n ih =>
     rw [List.replicate_succ, List.cons_append, List.cons_append, feed_leading_empty, feed_leading_empty]
     exact ih
-
-/-! ### the stash is never overrun (no hypothesis on the input) -/
-
-/-- `_ical_pull`, `echs_evical_pull` and the callers' loop keep the stash fill below the size of the stash
-(the terminator byte at `stash[six]` is inside the buffer as well) -/
-theorem stash_bounded :
-    (∀ fuel p, p.stash.length < stashSize → (pull fuel p).1.stash.length < stashSize) ∧
-    (∀ fuel p, p.stash.length < stashSize → (pullIns fuel p).1.stash.length < stashSize) ∧
-    (∀ fuel p, p.stash.length < stashSize → (pullEv fuel p).1.stash.length < stashSize) ∧
-    (∀ fuel p acc, p.stash.length < stashSize → (drain fuel p acc).1.stash.length < stashSize) :=
-  ⟨loop_stash_lt pull_isLoop round_good, loop_stash_lt pullIns_isLoop insStep_good,
-   loop_stash_lt pullEv_isLoop evStep_good, drain_stash_lt⟩
-
-theorem feedStep_bounded (s : Option Parser × List Instr) (ch : List Byte)
-    (hs : ∀ q, s.1 = some q → q.stash.length < stashSize) :
-    ∀ q, (feedStep s ch).1 = some q → q.stash.length < stashSize := by
-  intro q hq
-  unfold feedStep at hq
-  split at hq
-  · exact hs q hq
-  · dsimp only at hq
-    cases hq
-    apply drain_stash_lt
-    cases h1 : s.1 with
-    | none => simp [stashSize]
-    | some q1 => exact hs q1 h1
-
-/-- every parser state between the pushes of `feed`, on any input whatsoever -/
-theorem stash_bounded_feed : ∀ (chunks : List (List Byte)) (s : Option Parser × List Instr),
-    (∀ q, s.1 = some q → q.stash.length < stashSize) →
-    ∀ q, (chunks.foldl feedStep s).1 = some q → q.stash.length < stashSize
-  | [], _, hs => hs
-  | ch :: r, s, hs => by
-    rw [List.foldl_cons]
-    exact stash_bounded_feed r _ (feedStep_bounded s ch hs)
 
 /-! ### the loops of the model end by their own exit conditions -/
 
@@ -468,7 +435,7 @@ theorem backslash_matters :
 
 Three inputs that violate the former conjunct `LinesShort` (1000 raw bytes), each followed by the line `B:1`:
 a line of many raw bytes that unfolds to 2 (the former witness `raw_matters`), a folded line of 1052 raw bytes
-that unfolds to 957 (it fits: acted upon), and a line of 1102 bytes (it does not fit: passed over as a whole).
+that unfolds to 957, and a line of 1102 bytes (more than the former stash of 1 KiB held); all are acted upon.
 Every chunking gives what the single buffer gives (by `chunk_independent`), and for some chunkings - among
 them the cuts in front of the LF and between LF and fold blank, where the former code decided differently -
 the lines acted upon are computed directly. -/
@@ -512,7 +479,7 @@ theorem tidy'_foldLine : Tidy' (foldLine ++ ([10] ++ lineB)) := by
   exact tidy'_append _ _ (tidy'_replicate _ _ (by decide)) (by decide) b hbl
 
 set_option maxRecDepth 1000000 in
-/-- the line fits the stash and is acted upon, in one buffer, cut in the middle of a piece (at 600), cut between
+/-- the line is acted upon, in one buffer, cut in the middle of a piece (at 600), cut between
 an LF and its fold blank (at 1033: the stash holds 940 bytes, 18 raw bytes follow), cut in front of the final LF -/
 theorem fold_long_independent :
     (foldLine ++ [10]).length = 1052 ∧
@@ -537,21 +504,177 @@ theorem tidy'_overLine : Tidy' (lineB ++ (overLine ++ ([10] ++ lineB))) :=
     tidy'_lineB)
 
 set_option maxRecDepth 1000000 in
-/-- the line does not fit the stash: it is passed over as a whole and the lines around it are acted upon - in
-one buffer, cut at 500 (formerly: the first 500 bytes were stashed and the rest dropped with them), cut at 1027
-(the first piece alone does not fit), byte for byte up to 3 and then cut in front of the LF -/
+/-- the line would not have fitted the former stash of 1 KiB (it was passed over as a whole): now it is acted upon
+like the lines around it - in one buffer, cut at 500, cut at 1027 (the first piece alone exceeds 1 KiB), byte for
+byte up to 3 and then cut in front of the LF -/
 theorem over_long_independent :
-    (feed [lineB ++ (overLine ++ ([10] ++ lineB))]).2 = [[66, 58, 49], [66, 58, 49]] ∧
+    (feed [lineB ++ (overLine ++ ([10] ++ lineB))]).2 = [[66, 58, 49], overLine, [66, 58, 49]] ∧
     (feed [(lineB ++ (overLine ++ ([10] ++ lineB))).take 500, (lineB ++ (overLine ++ ([10] ++ lineB))).drop 500]).2 =
-      [[66, 58, 49], [66, 58, 49]] ∧
+      [[66, 58, 49], overLine, [66, 58, 49]] ∧
     (feed [(lineB ++ (overLine ++ ([10] ++ lineB))).take 1027, (lineB ++ (overLine ++ ([10] ++ lineB))).drop 1027]).2 =
-      [[66, 58, 49], [66, 58, 49]] ∧
-    (feed [lineB, [65], [58], [120], overLine.drop 3, [10] ++ lineB]).2 = [[66, 58, 49], [66, 58, 49]] := by
+      [[66, 58, 49], overLine, [66, 58, 49]] ∧
+    (feed [lineB, [65], [58], [120], overLine.drop 3, [10] ++ lineB]).2 = [[66, 58, 49], overLine, [66, 58, 49]] := by
   decide
 
 theorem over_long_any_chunking (chunks : List (List Byte))
     (hc : chunks.flatten = lineB ++ (overLine ++ ([10] ++ lineB))) (hne : ∀ c ∈ chunks, c ≠ []) :
     feed chunks = feed [lineB ++ (overLine ++ ([10] ++ lineB))] :=
   chunk_independent _ chunks hc hne tidy'_overLine
+
+/-- whatever the chunks: the line of 1102 bytes is among the lines acted upon -/
+theorem over_long_acted_upon (chunks : List (List Byte))
+    (hc : chunks.flatten = lineB ++ (overLine ++ ([10] ++ lineB))) (hne : ∀ c ∈ chunks, c ≠ []) :
+    (feed chunks).2 = [[66, 58, 49], overLine, [66, 58, 49]] := by
+  rw [over_long_any_chunking chunks hc hne]; exact over_long_independent.1
+
+/-- `SUMMARY:` and 1500 times `x`, a property line of 1508 bytes, without its LF -/
+def longSummary : List Byte := [83, 85, 77, 77, 65, 82, 89, 58] ++ List.replicate 1500 120
+
+/-- `BEGIN:VCALENDAR`, `BEGIN:VEVENT`, `UID:a`, the long SUMMARY line, `END:VEVENT`, `END:VCALENDAR` -/
+def calLong : List Byte :=
+  calOpen.take 35 ++ (longSummary ++ ([10] ++ (calOpen.drop 35 ++ [69, 78, 68, 58, 86, 67, 65, 76, 69, 78, 68, 65, 82, 10])))
+
+theorem tidy'_calLong : Tidy' calLong :=
+  tidy'_append _ _ (by decide) (tidy'_append _ _ (tidy'_append _ _ (by decide) (tidy'_replicate _ _ (by decide)))
+    (by decide))
+
+set_option maxRecDepth 1000000 in
+/-- the SUMMARY line of 1508 bytes is a property line of the one instruction (formerly: passed over, the event
+came out without it), in one buffer and cut in the middle of it -/
+theorem long_summary_kept :
+    (feed [calLong]).1.map (fun i => (i.verb, i.lines)) = [("S", [[85, 73, 68, 58, 97], longSummary])] ∧
+    (feed [calLong.take 1200, calLong.drop 1200]).1.map (fun i => (i.verb, i.lines)) =
+      [("S", [[85, 73, 68, 58, 97], longSummary])] ∧
+    longSummary ∈ (feed [calLong]).2 := by
+  decide
+
+/-- whatever the chunks -/
+theorem long_summary_any_chunking (chunks : List (List Byte)) (hc : chunks.flatten = calLong)
+    (hne : ∀ c ∈ chunks, c ≠ []) :
+    (feed chunks).1.map (fun i => (i.verb, i.lines)) = [("S", [[85, 73, 68, 58, 97], longSummary])] ∧
+    longSummary ∈ (feed chunks).2 := by
+  rw [chunk_independent _ chunks hc hne tidy'_calLong]
+  exact ⟨long_summary_kept.1, long_summary_kept.2.2⟩
+
+set_option maxRecDepth 1000000 in
+theorem runA_overLine : (runA {} overLine).ins = [] ∧ (runA {} overLine).cur.length = 1102 := by decide
+
+/-- the stash is no longer bounded (the former `stash_bounded`, fill below 1024, is false now): between two
+pushes it holds the whole line under way -/
+theorem stash_grows : ∃ q, [overLine].foldl feedStep (none, []) = (some q, []) ∧ q.stash.length = 1102 := by
+  have hf : [overLine].flatten = overLine := by
+    rw [List.flatten_cons, List.flatten_nil, List.append_nil]
+  have h := state_independent [overLine] (fun c hc => by rw [List.mem_singleton.1 hc]; exact List.cons_ne_nil _ _)
+    (by rw [hf]; exact List.cons_ne_nil _ _)
+    (by rw [hf]; exact tidy'_append _ _ (by decide) (tidy'_replicate 1100 120 (by decide)))
+  rw [hf] at h
+  obtain ⟨q, hq, _, _, hst, _⟩ := h
+  refine ⟨q, ?_, ?_⟩
+  · rw [hq, runA_overLine.1]
+  · rw [hst]; exact runA_overLine.2
+
+/-! ### no line is passed over
+
+The lines acted upon (`_ical_proc` was handed them: `p.log`, second component of `feed`) are ALL non-empty logical
+lines of the input, whatever their length and however the input is cut.  `logicalLines` reads the input byte by
+byte and knows nothing of buffers, stash or components. -/
+
+/-- the non-empty logical lines of an input, read byte by byte (`cur`: the unfolded line so far, `pend`: its NL has
+been read): a CR is dropped wherever it stands, NL followed by SP/TAB is a fold and is dropped, any other NL ends
+the line - the last one of the input included; empty lines are no lines, and what is left at the end of the
+input without its NL is not a line yet -/
+def linesFrom (pend : Bool) (cur : List Byte) : List Byte → List (List Byte)
+  | [] => if pend = true ∧ cur ≠ [] then [cur] else []
+  | c :: r =>
+    if pend = true then
+      if isFold c = true then linesFrom false cur r
+      else (if cur ≠ [] then [cur] else []) ++ linesFrom (c == NL) (if c = CR ∨ c = NL then [] else [c]) r
+    else linesFrom (c == NL) (if c = CR ∨ c = NL then cur else cur ++ [c]) r
+
+/-- all non-empty logical (unfolded) lines of an input, in order -/
+def logicalLines (bs : List Byte) : List (List Byte) := linesFrom false [] bs
+
+theorem plainSc_pend (s : Sc) (c : Byte) (h : s.pend = false) : (plainSc s c).pend = (c == NL) := by
+  unfold plainSc
+  by_cases h1 : c = CR
+  · rw [if_pos h1, h1]; exact h
+  · rw [if_neg h1]
+    by_cases h2 : c = NL
+    · rw [if_pos h2, h2]; rfl
+    · rw [if_neg h2]
+      show s.pend = _
+      rw [h]; symm; simpa using h2
+
+theorem flushA_log (A : Abs) :
+    (flushA A).log = A.log ++ (if A.cur ≠ [] then [A.cur] else []).map (fun l => l.takeWhile (· ≠ 0)) := by
+  by_cases h : A.cur = []
+  · rw [flushA_of_nil A h, if_neg (by simpa using h)]; simp
+  · rw [flushA_of_ne A h, if_pos h]; exact procA_log A
+
+theorem finish_log (A : Abs) (ins : List Instr) :
+    (finish A ins).2 =
+      A.log ++ (if A.sc.pend = true ∧ A.cur ≠ [] then [A.cur] else []).map (fun l => l.takeWhile (· ≠ 0)) := by
+  unfold finish
+  split <;> simp
+
+/-- the lines the reference automaton and the last pull act upon are the logical lines still to come -/
+theorem runA_lines : ∀ (l : List Byte) (A : Abs) (ins : List Instr),
+    (finish (runA A l) ins).2 =
+      A.log ++ (linesFrom A.sc.pend A.cur l).map (fun l => l.takeWhile (· ≠ 0))
+  | [], A, ins => by rw [runA_nil, finish_log]; rfl
+  | c :: r, A, ins => by
+    rw [runA_cons, runA_lines r (stepA A c) ins]
+    cases hp : A.sc.pend with
+    | false =>
+      rw [stepA_not_pend A c hp]
+      show A.log ++ _ = _
+      have e : (plainA A c).sc.pend = (c == NL) := plainSc_pend A.sc c hp
+      rw [e]
+      rfl
+    | true =>
+      cases hf : isFold c with
+      | true =>
+        rw [stepA_pend_fold A c hp hf]
+        show A.log ++ List.map _ (linesFrom (stepSc A.sc c).pend A.cur r) = _
+        rw [stepSc_pend_fold _ _ hp hf]
+        simp [linesFrom, hf]
+      | false =>
+        rw [stepA_pend_nofold A c hp hf]
+        have e : (plainA (flushA A) c).sc.pend = (c == NL) :=
+          plainSc_pend (flushA A).sc c (by rw [flushA_sc])
+        have e2 : (plainA (flushA A) c).cur = if c = CR ∨ c = NL then [] else [c] := by
+          show (if c = CR ∨ c = NL then (flushA A).cur else (flushA A).cur ++ [c]) = _
+          rw [flushA_cur]; rfl
+        have e3 : (plainA (flushA A) c).log = (flushA A).log := rfl
+        rw [e, e2, e3, flushA_log]
+        simp [linesFrom, hf, List.append_assoc]
+
+/-- no line is passed over: for every input without backslash and every chunking of it the lines handed to
+`_ical_proc` (each as the C string it is read as: up to its first NUL) are ALL non-empty logical lines of the
+concatenation, in order -/
+theorem no_line_passed_over (bs : List Byte) (chunks : List (List Byte)) (hc : chunks.flatten = bs)
+    (hne : ∀ c ∈ chunks, c ≠ []) (ht : Tidy' bs) :
+    (feed chunks).2 = (logicalLines bs).map (fun l => l.takeWhile (· ≠ 0)) := by
+  by_cases hbs : bs = []
+  · rw [hbs] at hc
+    rw [chunks_nil_of_flatten chunks hc hne, hbs]; rfl
+  · rw [feed_tidy chunks hne (by rw [hc]; exact hbs) (by rw [hc]; exact ht), hc, runA_lines]
+    rfl
+
+/-- in particular every logical line is among the lines acted upon -/
+theorem every_line_acted_upon (bs : List Byte) (chunks : List (List Byte)) (hc : chunks.flatten = bs)
+    (hne : ∀ c ∈ chunks, c ≠ []) (ht : Tidy' bs) (l : List Byte) (hl : l ∈ logicalLines bs) :
+    l.takeWhile (· ≠ 0) ∈ (feed chunks).2 := by
+  rw [no_line_passed_over bs chunks hc hne ht]
+  exact List.mem_map_of_mem hl
+
+set_option maxRecDepth 1000000 in
+/-- `logicalLines` on small inputs: a fold, CRLF, an empty line, an unterminated rest; the calendar `cal` above;
+the line of 1102 bytes -/
+theorem logicalLines_examples :
+    logicalLines [65, 58, 49, 13, 10, 32, 50, 10, 13, 10, 66, 58, 10, 67] = [[65, 58, 49, 50], [66, 58]] ∧
+    (logicalLines cal).length = 9 ∧
+    logicalLines (lineB ++ (overLine ++ ([10] ++ lineB))) = [[66, 58, 49], overLine, [66, 58, 49]] := by
+  decide
 
 end C10
